@@ -33,7 +33,8 @@ type Step struct {
 }
 
 type Case struct {
-	Kind  string `json:"kind"` // run | crash | codec | mutate
+	Kind  string `json:"kind"` // run | crash | chain | hist | codec | mutate | oversize
+	Hist  []HOp  `json:"hist,omitempty"`
 	Store int    `json:"store"`
 	// run: a chain of restarts of one store in one data directory, each ending in a shutdown snapshot
 	InitN       []NEntry `json:"init_n,omitempty"` // file found at the first start (written by an earlier version)
@@ -136,6 +137,7 @@ func loadFile(store int, path string) (string, error) {
 var (
 	curRun   *vh.Run
 	blobName map[string]string
+	tmpSeen  = map[string]bool{}
 )
 
 func coqBytes(b []byte) string {
@@ -176,6 +178,8 @@ func coqOp(o FsOp) string {
 	switch o.Kind {
 	case "create":
 		return vh.App("Create", vh.Str(o.A))
+	case "open":
+		return vh.App("OpenExisting", vh.Str(o.A))
 	case "write":
 		return vh.App("Write", vh.Str(o.A), coqBytes(o.Data))
 	case "fsync":
@@ -424,9 +428,19 @@ func runChain(t *testing.T, run *vh.Run, r *vh.Rand, c *Case, exhaustiveLimit in
 		if err := runUnderStrace(specPath, logPath); err != nil {
 			t.Fatalf("step %d: %v", si, err)
 		}
-		ops, err := parseStrace(logPath, dir, target)
+		ops, realNames, err := parseStrace(logPath, dir, target, true)
 		if err != nil {
 			t.Fatal(err)
+		}
+		for c, real := range realNames {
+			if c != target {
+				if tmpSeen[target+"/"+real] {
+					run.Count("temp_names", "reused-across-snapshots")
+				} else {
+					run.Count("temp_names", "fresh")
+				}
+				tmpSeen[target+"/"+real] = true
+			}
 		}
 		stateBytes, err := os.ReadFile(spec.StateOut)
 		if err != nil {
@@ -476,7 +490,7 @@ func runChain(t *testing.T, run *vh.Run, r *vh.Rand, c *Case, exhaustiveLimit in
 				if o.Kind == "write" {
 					data = append(data, o.Data...)
 				}
-				if o.Kind == "create" && tmp == "" {
+				if (o.Kind == "create" || o.Kind == "open") && tmp == "" {
 					tmp = o.A
 				}
 			}
@@ -553,6 +567,10 @@ func runOne(t *testing.T, run *vh.Run, r *vh.Rand, c *Case, exhaustiveLimit int)
 		mutateCase(t, run, c)
 	case "oversize":
 		oversizeCase(run, c)
+	case "chain":
+		crashChainCase(t, run, r, c, false)
+	case "hist":
+		historyCase(t, run, c)
 	}
 }
 
@@ -602,6 +620,22 @@ func TestCheck(t *testing.T) {
 			c := genChain(r.Fork(), cs.store, cs.sizes, cs.initN, cs.tick)
 			runChain(t, run, r.Fork(), &c, 400)
 			run.Count("chains", storeName(cs.store))
+		}
+		// crash CHAINS: an interrupted snapshot of a large state (temp files left behind under their real names), then a
+		// completed snapshot of a smaller state in the same directory, then restart
+		for _, st := range []int{storeNflog, storeSilence} {
+			c := genCrashChain(r.Fork(), st, 5)
+			crashChainCase(t, run, r.Fork(), &c, thorough)
+			run.Count("crash_chains", storeName(st))
+		}
+		// lossless after arbitrary histories ending in each kind of change, through the real maintenance shutdown path
+		for rep := 0; rep < env.N(3, 10); rep++ {
+			for _, st := range []int{storeNflog, storeSilence} {
+				for _, last := range historyKinds(st) {
+					c := genHistory(r.Fork(), st, last)
+					historyCase(t, run, &c)
+				}
+			}
 		}
 		// codec differential and prefix/corruption classes
 		codecAll(t, run, r.Fork(), env)
